@@ -18,3 +18,21 @@ class Generic(composites.Composite):
     """Generic interior node / leaf of shape (a)."""
 
     pDefs = _defs()
+
+
+class Group(Generic):
+    """A composite that groups leaf Components inside a block (``Block.add`` allows that).  It orders
+    itself among components the way components do (bounding circle), so that a block holding it can
+    still be sorted."""
+
+    def __lt__(self, other):
+        return self.getBoundingCircleOuterDiameter(cold=True) < other.getBoundingCircleOuterDiameter(cold=True)
+
+    # what Block and Component code asks of a block's children / of a component's parent
+    def getDimension(self, key, Tc=None, cold=False):
+        if key == "mult":
+            return 1
+        raise parameters.UnknownParameterError("a group has no dimension %r" % key, "")
+
+    def getHeight(self):
+        return self.parent.getHeight() if self.parent is not None and hasattr(self.parent, "getHeight") else 1.0
